@@ -21,7 +21,7 @@ RULE = ("pool: 17 hand-written accepted designs (coroutines, prefixes, NamedQual
         "distinct_nontrivial = distinct histories whose every accepted step was compared with its fresh-interpreter bytes.")
 ASSUMPTIONS = ["the reference output of a design is its output when compiled alone in a fresh interpreter with PYTHONHASHSEED=0"]
 REQUIRE = {'quick': {'outputs_compared': 1500, 'histories_with_rejection': 200},
-           'thorough': {'outputs_compared': 30000, 'histories_with_rejection': 3000}}
+           'thorough': {'outputs_compared': 15000, 'histories_with_rejection': 2000}}
 SHARDS_PER_CORE = 4
 
 _pool = None
